@@ -42,6 +42,13 @@ def main(ctx: Ctx) -> None:
     ctx.coverage["searched_only"] = [
         "stub parses (whole file)", "mypy on the stub alone", "stubtest on (module, stub)",
         "public names and spelled-out annotations vs the source AST", "inspect mode"]
+    ctx.assume(
+        "search inputs: generated packages that import without side effects under the host CPython (3.12) and "
+        "type-check under mypy's default options; anything else is excluded and counted (search_excluded_inputs)",
+        "tie A does not generate `__exit__` (infer_method_arg_types replaces its whole argument list — not modelled)",
+        "parse-only mode is not evaluated on modules with enums / NamedTuples, inspect mode only on the restricted "
+        "profile of gen.py (plain functions, classes, methods, simple annotations) plus the witnesses: the rest of "
+        "these two modes is recorded as known findings, one explicit witness each (harness/c19/witnesses.py)")
     tie.tie_grammar(ctx)
     tie.tie_signatures(ctx)
     tie.tie_defaults(ctx)
